@@ -263,6 +263,25 @@ func (tr *Tor) Kill() {
 	cancel()
 }
 
+// ParkLoop parks the torrent's event loop inside a handler (it answers a statistics query whose reply nobody
+// collects yet) and returns the function that releases it; nil if the query could not be queued.  While the
+// loop is parked everything sent to the torrent stays in its mailbox.
+func (tr *Tor) ParkLoop() func() {
+	hold := make(chan *peer.TorStats)
+	select {
+	case tr.T.Event <- peer.TorGetStats{Ch: hold}:
+	default:
+		return nil
+	}
+	synctest.Wait()
+	return func() {
+		select {
+		case <-hold:
+		case <-tr.T.Done:
+		}
+	}
+}
+
 // KillWithFullMailbox stops the torrent the way Kill does (a TorGoAway event) but with its mailbox full behind
 // that event: the loop is first parked answering a statistics query nobody collects yet, the stop event is
 // queued, the remaining slots are filled with announce requests, then the loop is released.  What the peers
